@@ -312,7 +312,44 @@ mut("C25", "cwe476_drain_early", L + "checkers/cwe_476.rs", """    for edge in g
     for edge in general_context.get_graph().edge_references() {
         let Edge::ExternCallStub(jmp) = edge.weight() else {""", ["R4|cwe476|drain-after"], "private channel drained before the computations")
 
+# ---------------- C07
+FP = L + "analysis/fixpoint.rs"
+mut("C07", "merge_compares_new", FP, "if merged_value != *old_value {", "if merged_value != value {", ["R3|merge_node_value|changed-value-stored"], "merge result compared with the incoming instead of the old value")
+mut("C07", "non_stabilized_forgotten", FP, """            } else {
+                non_stabilized_nodes.insert(priority);
+            }""", """            }""", ["R3|compute_with_max_steps"], "nodes cut off by the step bound are forgotten")
+mut("C07", "set_value_no_enqueue", FP, """        self.node_values.insert(node, value);
+        self.worklist.insert(self.node_priority_list[node.index()]);""", """        self.node_values.insert(node, value);""", ["R2|set_node_value|insert"], "set_node_value does not enqueue")
+mut("C07", "worklist_not_restored", FP, "        self.worklist = non_stabilized_nodes;\n", "        let _ = non_stabilized_nodes;\n", ["R3|compute_with_max_steps|worklist-restored"], "worklist not restored after the bounded run")
+mut("C07", "step_le", FP, "if steps[node.index()] < max_steps {", "if steps[node.index()] <= max_steps {", ["R4|step-test|steps-lt-max"], "off-by-one in the step bound")
+mut("C07", "values_mut_no_enqueue", FP, """        for node in self.node_values.keys() {
+            let priority = self.node_priority_list[node.index()];
+            self.worklist.insert(priority);
+        }
+        self.node_values.values_mut()""", """        self.node_values.values_mut()""", ["R2|node_values_mut"], "mutable access without enqueue")
+mut("C07", "update_node_skips_first", FP, """            .edges(node)
+            .map(|edge_ref| edge_ref.id())""", """            .edges(node)
+            .skip(1)
+            .map(|edge_ref| edge_ref.id())""", ["R3|update_node"], "one outgoing edge never updated")
+mut("C07", "merge_into_start", FP, "self.merge_node_value(end_node, new_end_val);", "self.merge_node_value(start_node, new_end_val);", ["R3|update_edge"], "transfer result merged into the wrong node")
+mut("C07", "stabilized_always", FP, """    pub fn has_stabilized(&self) -> bool {
+        self.worklist.is_empty()""", """    pub fn has_stabilized(&self) -> bool {
+        self.worklist.len() <= 1""", ["R4|has_stabilized"], "stabilized reported with a pending node")
+mut("C07", "enqueue_wrong_node", FP, "self.worklist.insert(self.node_priority_list[node.index()]);", "self.worklist.insert(node.index());", ["R2|set_node_value|insert"], "node index used instead of its priority")
+mut("C07", "bottom_up_drops_nodes", L + "analysis/forward_interprocedural_fixpoint.rs", """    graph.retain_edges(|frozen, edge| !matches!(frozen[edge], Edge::Call(..)));
+    petgraph::algo::kosaraju_scc(&graph)
+        .into_iter()
+        .flatten()""", """    graph.retain_edges(|frozen, edge| !matches!(frozen[edge], Edge::Call(..)));
+    petgraph::algo::kosaraju_scc(&graph)
+        .into_iter()
+        .filter(|scc| scc.len() < 100)
+        .flatten()""", ["R5|create_bottom_up_worklist"], "priority list misses nodes")
+# order-only edits must stay silent: next() instead of next_back()
+mut("C07", "SILENT_take_smallest_first", FP, "if let Some(priority) = self.worklist.iter().next_back().cloned() {", "if let Some(priority) = self.worklist.iter().next().cloned() {", [], "processing order changed (must NOT be reported)")
+
 for prop, name, spec in M:
+    if name.startswith("SILENT_"):
+        spec["silent"] = True
     d = os.path.join(V, "mutants", prop)
     os.makedirs(d, exist_ok=True)
     with open(os.path.join(d, name + ".json"), "w") as f:
